@@ -457,17 +457,32 @@ Qed.
 (* ---------- raw re-delivery (no CheckChangeVersion filter) ---------- *)
 Lemma gtransfer_gput : forall res me phys clk i l, dominates (d_hlv l) (cv (d_hlv i)) = false ->
   gtransfer res me phys clk (Some i) (Some l) = gput res me phys clk i l.
-Proof. intros. unfold gtransfer, gput. rewrite H. reflexivity. Qed.
+Proof. intros. unfold gtransfer, gput. rewrite H, andb_false_r. reflexivity. Qed.
 
-(* a revision the stored vector already knows, delivered raw: answered "already present" and nothing is stored --
-   UNLESS both are tombstones (that case skips the test: C06_Refuted.C06_raw_tombstone_redelivery_refuted) *)
-Theorem raw_redelivery_cancelled : forall res me phys clk i l, src (d_hlv l) <> 0 ->
-  dominates (d_hlv l) (cv (d_hlv i)) = true ->
-  (cv (d_hlv l) = cv (d_hlv i) \/ dominates (d_hlv i) (cv (d_hlv l)) = false) ->
-  unsendable i = false -> d_del i && d_del l = false ->
+(* a revision the stored vector already knows, delivered raw, is answered "already present" and nothing is stored --
+   tombstones INCLUDED since 6e0c2ba (Switches.known_tombstone_cancelled); before it the tombstone-onto-tombstone
+   branch skipped the test (C06_Refuted.C06_raw_tombstone_redelivery_refuted).  For two live / mixed copies the answer
+   comes from IsInConflict, which needs that the two vectors are not each other's "newer" (true of an active and the
+   passive copy of the chain by ci_m); two tombstones need nothing. *)
+Theorem raw_redelivery_cancelled : forall res me phys clk i l, known_tombstone_cancelled = true ->
+  dominates (d_hlv l) (cv (d_hlv i)) = true -> unsendable i = false ->
+  (d_del i && d_del l = true \/ cv (d_hlv l) = cv (d_hlv i) \/ dominates (d_hlv i) (cv (d_hlv l)) = false) ->
   gput res me phys clk i l = (Some l, GCancelled, clk).
 Proof.
-  intros res me phys clk i l Hs D M US T. unfold gput. rewrite US, T.
+  intros res me phys clk i l K D US M. unfold gput. rewrite US, K, D. cbn [andb].
+  destruct (d_del i && d_del l) eqn:T; [reflexivity|].
+  assert (IC : is_in_conflict (d_hlv l) (d_hlv i) = AlreadyPresent).
+  { apply (proj1 (status_cases _ _)). destruct M as [F|[E|F]]; [discriminate | left; now apply equal_cv_spec | right; auto]. }
+  now rewrite IC.
+Qed.
+
+(* the old code, kept reachable: with the switch off the live / mixed case only *)
+Theorem raw_redelivery_cancelled_old : forall res me phys clk i l,
+  dominates (d_hlv l) (cv (d_hlv i)) = true -> unsendable i = false -> d_del i && d_del l = false ->
+  (cv (d_hlv l) = cv (d_hlv i) \/ dominates (d_hlv i) (cv (d_hlv l)) = false) ->
+  gput res me phys clk i l = (Some l, GCancelled, clk).
+Proof.
+  intros res me phys clk i l D US T M. unfold gput. rewrite US, T.
   assert (IC : is_in_conflict (d_hlv l) (d_hlv i) = AlreadyPresent).
   { apply (proj1 (status_cases _ _)). destruct M as [E|F]; [left; now apply equal_cv_spec | right; auto]. }
   now rewrite IC.
